@@ -169,7 +169,11 @@ func runC13(e *core.Env) {
 		o := gen.Opts{MaxRecs: 9, MinRecs: 1, MaxEntries: 5, Unicode: r.Chance(1, 3), Hostile: r.Chance(1, 3), OpenRanges: 1, Tags: r.PickInt(1, 2, 2), IDs: true, Near: &today, NearSpread: r.PickInt(3, 10, 40, 400)}
 		d := gen.Document(r, o)
 		f := writeFile(e.Dir, "c13.klg", d.Text)
-		clock := obs.ClockAt(today, r.Intn(1440), 0)
+		minute := r.Intn(1440)
+		if obs.IsDSTDate(today) && minute%3 != 0 {
+			minute = obs.NearMidnight(minute) // where "24 hours ago" and "yesterday" part ways
+		}
+		clock := obs.ClockAt(today, minute, 0)
 		for qi := 0; qi < 6; qi++ {
 			q := c13GenQuery(r, d.Doc, today)
 			if q.Shortcut != "" && !shortcutRepresentable(q.Shortcut, today) {
